@@ -20,6 +20,11 @@ NA = {
 }
 
 CLAIMS = {
+    'C17': dict(
+        category='exploration', technique='deterministic simulation: seeded collapse histories over shared cached templates, reference rotation/naming models as oracle, bounded liveness of collapse_all on recursive graphs measured on a deterministic step clock (collapse_one calls)',
+        engine='history-machine+stepclock',
+        text='1-3 seeded templates (brushes with displacements/point data, point and brush entities of real FGD classes with position-, angle- and name-typed keys, outputs, $variables, nested func_instance entities with fixups) and 1-6 placements (identity / axis-aligned / arbitrary angles, three fixup styles, fixup tables) are collapsed in a seeded order through one cached InstanceFile per template. After every collapse: the template (export text, params, proxies, entity fixups) is unchanged; what the placement added equals what it adds when collapsed alone (order independence); the placed result equals the identity collapse transformed by an independent plain-math Source rotation (positions, texture axes with the offset law, displacement data, point data, orientation keys compared as matrices); names and $variables follow three-line reference functions. Recursive graphs (self / mutual, branching 1-2, default and small recur_limit) must end in a return or RecursionError within a budget of collapse_one calls.',
+        note='Pitch kept away from +-90 degrees; only the curated key types are judged; FGD database trusted as configuration.', ref='5/C17'),
     'C09': dict(
         category='exploration', technique='deterministic simulation: seeded object specs, copy, then a seeded history of in-place mutations on one side with the other side observed after every step; identity-based aliasing walker; operand snapshots for operators',
         engine='history-machine',
